@@ -174,6 +174,11 @@ class _Canonical(ast.NodeTransformer):
                 continue                    # docstrings and stray literals
             if isinstance(st, ast.Pass) and len(body) > 1:
                 continue
+            if isinstance(st, ast.If):
+                if st.orelse and all(isinstance(x, ast.Pass) for x in st.orelse):
+                    st.orelse = []
+                if not st.orelse and all(isinstance(x, ast.Pass) for x in st.body) and not any(isinstance(x, (ast.Call, ast.NamedExpr, ast.Await, ast.Yield)) for x in ast.walk(st.test)):
+                    continue                # a test without calls that selects nothing
             if isinstance(st, ast.Expr) and (isinstance(st.value, ast.Name) or (isinstance(st.value, ast.Tuple) and all(isinstance(x, ast.Name) for x in st.value.elts))):
                 continue                    # an expression statement that only names locals does nothing
             if isinstance(st, ast.Assign) and len(st.targets) == 1 and isinstance(st.targets[0], ast.Tuple) and isinstance(st.value, ast.Tuple) \
@@ -250,8 +255,35 @@ class _Canonical(ast.NodeTransformer):
             node.left, node.right = r, l
         return node
 
+    @staticmethod
+    def _truth(e):
+        """The same test without bool() wrappers (in a truth context bool(x) is x)."""
+        if isinstance(e, ast.Call) and isinstance(e.func, ast.Name) and e.func.id == "bool" and len(e.args) == 1 and not e.keywords:
+            return _Canonical._truth(e.args[0])
+        if isinstance(e, ast.BoolOp):
+            e.values = [_Canonical._truth(v) for v in e.values]
+        elif isinstance(e, ast.UnaryOp) and isinstance(e.op, ast.Not):
+            e.operand = _Canonical._truth(e.operand)
+        return e
+
+    def visit_While(self, node):
+        node = self.generic_visit(node)
+        node.test = self._truth(node.test)
+        return node
+
+    def visit_IfExp(self, node):
+        node = self.generic_visit(node)
+        node.test = self._truth(node.test)
+        return node
+
+    def visit_Assert(self, node):
+        node = self.generic_visit(node)
+        node.test = self._truth(node.test)
+        return node
+
     def visit_If(self, node):
         node = self.generic_visit(node)
+        node.test = self._truth(node.test)
         # `if not c: A else: B` -> `if c: B else: A` (an elif chain in the else part is left alone)
         if isinstance(node.test, ast.UnaryOp) and isinstance(node.test.op, ast.Not) and node.orelse \
                 and not (len(node.orelse) == 1 and isinstance(node.orelse[0], ast.If)):
@@ -331,6 +363,15 @@ class _Canonical(ast.NodeTransformer):
 
     def visit_Compare(self, node):
         self.generic_visit(node)
+        # (a, b) == (c, d)  ->  a == c and b == d   (and != -> or) for operands that are names, attributes or literals
+        if len(node.ops) == 1 and isinstance(node.ops[0], (ast.Eq, ast.NotEq)) and isinstance(node.left, ast.Tuple) and isinstance(node.comparators[0], ast.Tuple) \
+                and len(node.left.elts) == len(node.comparators[0].elts) >= 1 \
+                and all(isinstance(x, ast.Constant) or _pure_chain(x) for x in node.left.elts + node.comparators[0].elts):
+            parts = [ast.Compare(left=a, ops=[type(node.ops[0])()], comparators=[b]) for a, b in zip(node.left.elts, node.comparators[0].elts)]
+            parts = [self.visit_Compare(p_) for p_ in parts]
+            if len(parts) == 1:
+                return ast.copy_location(parts[0], node)
+            return ast.copy_location(ast.BoolOp(op=ast.And() if isinstance(node.ops[0], ast.Eq) else ast.Or(), values=parts), node)
         if len(node.ops) == 1 and type(node.ops[0]) in self._SWAP and _const_like(node.left) and not _const_like(node.comparators[0]):
             node.left, node.comparators, node.ops = node.comparators[0], [node.left], [self._SWAP[type(node.ops[0])]()]
         return node
@@ -771,6 +812,24 @@ def _copy_propagate_attr(fn, blk, i, st, ref_lines) -> bool:
                 continue
             uses = [x for x in ast.walk(scope) if isinstance(x, ast.Attribute) and x.attr == attr and isinstance(x.value, ast.Name) and x.value.id == "self" and isinstance(x.ctx, ast.Load)]
             if not uses:
+                # the other way round: the parameter is read where the reference reads the attribute
+                puses = [x for x in ast.walk(scope) if isinstance(x, ast.Name) and x.id == p and isinstance(x.ctx, ast.Load)]
+                if puses:
+                    trial = _copy.deepcopy(sub)
+
+                    class _P(ast.NodeTransformer):
+                        def visit_Name(self, node):
+                            if node.id == p and isinstance(node.ctx, ast.Load):
+                                return ast.copy_location(ast.Attribute(value=ast.Name(id="self", ctx=ast.Load()), attr=attr, ctx=ast.Load()), node)
+                            return node
+                    if isinstance(trial, (ast.If, ast.While)):
+                        trial.test = _P().visit(trial.test)
+                    else:
+                        trial = _P().visit(trial)
+                    if _head_line(_Canonical().visit(trial)) in ref_lines:
+                        for u in puses:
+                            _replace_in(fn, u, ast.Attribute(value=ast.Name(id="self", ctx=ast.Load()), attr=attr, ctx=ast.Load()))
+                        return True
                 continue
             trial = _copy.deepcopy(sub)
 
@@ -1151,6 +1210,40 @@ def _merge_name_alias(fn: ast.FunctionDef, known: set) -> None:
             return _merge_name_alias(fn, known)
 
 
+def _restore_aug_mask(fn: ast.FunctionDef, ref_fn: dict, known: set) -> None:
+    """The reference masks a local in place right after it is bound (`x &= K`) and then reads x; the current function leaves
+    x unmasked and reads `x & K` everywhere instead: the in-place mask is put back and every `x & K` becomes x."""
+    import re as _re
+    ref_lines = [l.strip() for l in ref_fn.get("src", "").splitlines()]
+    cur_lines = {l.strip() for l in ast.unparse(fn).splitlines()}
+    for line in ref_lines:
+        m = _re.fullmatch(r"([A-Za-z_][A-Za-z_0-9]*) &= (\d+)", line)
+        if not m or line in cur_lines:
+            continue
+        x, K = m.group(1), int(m.group(2))
+        if x not in known:
+            continue
+        stores = [n for n in ast.walk(fn) if isinstance(n, ast.Name) and n.id == x and isinstance(n.ctx, ast.Store)]
+        loads = [n for n in ast.walk(fn) if isinstance(n, ast.Name) and n.id == x and isinstance(n.ctx, ast.Load)]
+        if len(stores) != 1 or not loads:
+            continue
+        masked = [b for b in ast.walk(fn) if isinstance(b, ast.BinOp) and isinstance(b.op, ast.BitAnd) and isinstance(b.left, ast.Name) and b.left.id == x
+                  and isinstance(b.right, ast.Constant) and b.right.value == K]
+        if len(masked) != len(loads) or {id(b.left) for b in masked} != {id(l) for l in loads}:
+            continue
+        for blk in _fn_blocks(fn):
+            for i, st in enumerate(blk):
+                if isinstance(st, ast.Assign) and any(stores[0] is n for n in ast.walk(st)):
+                    rest = {id(n) for later in blk[i + 1:] for n in ast.walk(later)}
+                    if not all(id(l) in rest for l in loads):
+                        break
+                    for b in masked:
+                        _replace_in(fn, b, ast.Name(id=x, ctx=ast.Load()))
+                    blk.insert(i + 1, ast.copy_location(ast.AugAssign(target=ast.Name(id=x, ctx=ast.Store()), op=ast.BitAnd(), value=ast.Constant(value=K)), st))
+                    ast.fix_missing_locations(fn)
+                    return
+
+
 def _delay_snapshot_mutation(fn: ast.FunctionDef, known: set) -> None:
     """`t = self.a` / `self.a ^= K` / ... uses of t ...   ->   `t = self.a` / ... uses of t ... / `self.a ^= K`: an update of
     an attribute whose old value was saved in a fresh local moves behind the last use of that local, when nothing in between
@@ -1249,6 +1342,19 @@ def _inline_fresh_temps(fn: ast.FunctionDef, known: set, multi: bool = True) -> 
                 (stores if isinstance(n.ctx, (ast.Store, ast.Del)) else loads).setdefault(n.id, []).append(n)
             elif isinstance(n, (ast.Global, ast.Nonlocal)):
                 return
+        for blk in _fn_blocks(fn):
+            for i, st in enumerate(blk):
+                # a fresh local that nobody reads, computed without calling anything: the assignment goes
+                if isinstance(st, ast.Assign) and len(st.targets) == 1 and isinstance(st.targets[0], ast.Name) and st.targets[0].id not in known \
+                        and st.targets[0].id not in params and st.targets[0].id not in loads and not _impure_calls(st.value) and len(blk) > 1 \
+                        and not any(isinstance(x, (ast.NamedExpr, ast.Await, ast.Yield, ast.YieldFrom)) for x in ast.walk(st.value)):
+                    del blk[i]
+                    changed = True
+                    break
+            if changed:
+                break
+        if changed:
+            continue
         for blk in _fn_blocks(fn):
             for i in range(len(blk) - 1):
                 st = blk[i]
@@ -1493,6 +1599,7 @@ def canonicalise(tree: ast.Module, rel: str = "") -> ast.Module:
                             if ctor:
                                 _ctor_field_reads(n, rf, ctor)
                             _extract_toward_reference(n, rf, known)
+                            _restore_aug_mask(n, rf, known)
                         shape()
                         now = ast.dump(n)
                         if now == before:
